@@ -20,10 +20,10 @@ type item struct {
 	raw []byte
 }
 
-func bstr(b []byte) *item     { return &item{str: append([]byte{}, b...)} }
-func blist(k ...*item) *item  { return &item{list: true, kids: k} }
-func bnum(v *big.Int) *item   { return &item{str: v.Bytes()} } // minimal big-endian, zero = empty
-func bu64(v uint64) *item     { return bnum(new(big.Int).SetUint64(v)) }
+func bstr(b []byte) *item      { return &item{str: append([]byte{}, b...)} }
+func blist(k ...*item) *item   { return &item{list: true, kids: k} }
+func bnum(v *big.Int) *item    { return &item{str: v.Bytes()} } // minimal big-endian, zero = empty
+func bu64(v uint64) *item      { return bnum(new(big.Int).SetUint64(v)) }
 func (it *item) num() *big.Int { return new(big.Int).SetBytes(it.str) }
 
 func (it *item) clone() *item {
